@@ -1526,8 +1526,11 @@ func (n *node) MakeRef() gen.Ref {
 	ref.Node = n.name
 	ref.Creation = n.creation
 	id := atomic.AddUint64(&n.uniqID, 1)
+	// spread all 64 bits of the counter over the three words (18 + 28 + 18 bits),
+	// otherwise the value repeats every 2^18 references
 	ref.ID[0] = id & ((2 << 17) - 1)
-	ref.ID[1] = id >> 46
+	ref.ID[1] = (id >> 18) & ((2 << 27) - 1)
+	ref.ID[2] = id >> 46
 	return ref
 }
 
